@@ -23,7 +23,7 @@ STEP_ACTIONS = ("Stat", "Mkdir", "DlBegin", "DlEnd", "Retry", "Verify", "Parse",
 
 
 def beh_key(b):
-    return hashlib.sha1(json.dumps([b["cfg"], b["slot"], b["net"], b["steps"], b.get("gz", False)],
+    return hashlib.sha1(json.dumps([b["cfg"], b["slot"], b["net"], b["steps"], b.get("gz", False), b.get("pair")],
                                    sort_keys=True).encode()).hexdigest()
 
 
@@ -53,6 +53,9 @@ def random_schedule(rng, tid, nprocs):
 def run():
     c = Check("C19")
     rng = c.rng
+    registry = cachelib.extract_registry()                 # for the registry-level ordered pairs
+    cachelib.WORLD = cachelib.World(registry)
+    live = [r["name"] for r in registry if r["kind"] == "remote" and r["call"]["resolves"] and r["call"]["loader"] == "remote"]
     pool = cachelib.ReplayPool(c.scratch.dir, NCPU)       # lean workers, forked before any big data is loaded
     behs = []
     cover_stats = {}
@@ -110,6 +113,12 @@ def run():
         # ---- harness-originated schedules, 2..16 processes ------------------------------------------
         for k in range(1500 if c.thorough else 150):
             behs.append(random_schedule(rng, 0, rng.choice([2, 2, 3, 4, 6, 8, 12, 16])))
+        # ---- every ordered pair of remote datasets through the real load_dataset ---------------------
+        for a in live:
+            for b in live:
+                if a != b:
+                    behs.append({"tid": 0, "pair": [a, b], "cfg": {"p1": {}, "p2": {}}, "slot": {}, "net": {},
+                                 "steps": [], "src": "registry-pair"})
     for i, b in enumerate(behs):
         b["tid"] = i + 1
 
@@ -135,13 +144,15 @@ def run():
             c.count_nontrivial(beh_key(b))
 
     # ---- negative controls: one recorded trace, one field corrupted -----------------------------------
-    base = next((t for t in traces if t[-1]["k"] == "step" and t[-1]["r"][0] == "data"), None)
-    if base is None:
+    base = next((t for t in traces if t[-1]["k"] == "step" and t[-1]["r"] == ["data", "d1", "good"]), None)
+    if c.replay_path:
+        base = None
+    elif base is None:
         raise MachineryError("no trace ends with a successful probe load: nothing to build the negative control from")
     ntid = len(behs) + 1
-    for field, value, expect in (("r", ["data", base[-1]["r"][1], "bad"], "C19.NeverUnverified"),
-                                 ("s", None, "C19.CacheSound"),
-                                 ("x", 1, "impl.step")):
+    for field, value, expect in ((("r", ["data", "d1", "bad"], "C19.NeverUnverified"),
+                                  ("s", None, "C19.CacheSound"),
+                                  ("x", 1, "impl.step")) if base else ()):
         t = copy.deepcopy([{k: v for k, v in e.items() if k != "meta"} for e in base])
         for e in t:
             e["tid"] = ntid
